@@ -163,7 +163,7 @@ func main() {
 		Rule: "every element of RAISE SITE (error() levels, VM errors, raising metamethods / iterators / __close handlers / message handlers) x VALUE x POSITION " +
 			"(operand, argument, constructor field, loop iteration 2, nested / recursive function at pool-boundary depths, coroutine body, message handler, <close> scope; thorough: every ordered pair) " +
 			"x CATCH STRUCTURE (embedding caller via rt.Call and via CallContext, pcall, xpcall with 4 handlers, 4 nestings, coroutine.resume, resume inside xpcall, coroutine.wrap inside pcall), " +
-			"plus the results family (pcall returns true plus all results) and the interleave family (protected calls suspended inside coroutines); " +
+			"plus the overflow family (every sequence of <= 2 (thorough 3) runaway recursions through 8 re-entrant call vehicles x 4 catchers; a later dive must behave as the same dive made first in a fresh runtime), the results family (pcall returns true plus all results) and the interleave family (protected calls suspended inside coroutines); " +
 			"each run on golua in a fresh runtime in >=2 (quick) / 6 (thorough) renderings and compared with the reference interpreter reflua, followed by a fixed epilogue battery in the same runtime; " +
 			"non-trivial = every evaluated case (each raises and catches an error or returns through a protected call); distinct = distinct golua observations of the plain rendering",
 		Assumptions: []string{
@@ -184,6 +184,7 @@ func families(tier string) []*core.Family {
 	fams = append(fams, listFamily(tier, "results", resultsCases))
 	fams = append(fams, listFamily(tier, "interleave", interleaveCases))
 	fams = append(fams, listFamily(tier, "misc", miscCases))
+	fams = append(fams, overflowFamily(tier))
 	for _, fd := range famDefs {
 		fams = append(fams, productFamily(tier, fd, false))
 	}
